@@ -549,9 +549,14 @@ impl Mon {
                 Some(l) => {
                     if *l != id && self.on(P02) {
                         let l = *l;
+                        // listed finding F11: one of the two never had its own vote of that term on disk - a sole
+                        // voter that elected itself inside campaign() and crashed before its hard state was written
+                        let durable = |n: u64| self.dur[(n - 1) as usize].votes.get(&post.term) == Some(&n);
+                        let tag = if !durable(l) || !durable(id) { ":self-elected-leader-never-persisted-its-vote" } else { "" };
+                        let mon = format!("two-leaders-in-term{}", tag);
                         self.violation(
                             "C02",
-                            "two-leaders-in-term",
+                            &mon,
                             format!("nodes {} and {} are both leader of term {}", l, id, post.term),
                             op,
                         );
